@@ -180,21 +180,86 @@ func mergePads(in []elSpan) []elSpan {
 	return out
 }
 
-// probeQuirk: a "_FVH" at an 8-aligned offset below 32 of the BIOS region is never probed by
-// FindFirmwareVolumeOffset as long as the region starts there, but it is once freed blocks precede it;
-// the re-parsed element list then legitimately differs (noted in reports/C12.md)
+// probeDirty is the Go-side twin of Lean's `Probe.probeClean` (lean/FianoModel/TightenMe/ProbeStart.lean,
+// negated): one of the offsets 0, 8, 16, 24, 32 of the BIOS region x — as far as the probe loop's guard
+// `offset+4 < len` admits them — shows "_FVH".  Offsets 0..24 are never probed while the region starts
+// there (FindFirmwareVolumeOffset starts at 32) and a hit at 32 answers 32-40 = -8 = "no volume"; once
+// tighten_me has put freed blocks in front of the region all five are ordinary probes.  (A hit at 32 at the
+// very start of the region means that no volume of the region is parsed at all: the erase polarity is never
+// set and Assemble finds no first volume, so such an image is never SAVED by the real code — tried as a corpus
+// case by wp-c12c: tighten_me refuses in a fresh process, the save fails with the polarity preset; for images
+// that can be saved the predicate is about offsets 0..24.)
+func probeDirty(x []byte) bool {
+	for o := 0; o <= 32 && o+4 < len(x); o += 8 {
+		if bytes.Equal(x[o:o+4], []byte("_FVH")) {
+			return true
+		}
+	}
+	return false
+}
+
+// probeQuirk: probeDirty of the input's BIOS region (known finding F-C12-probe-start): the re-parsed element
+// list then legitimately differs from the tightened tree (reports/C12.md, Props c12_bios_reparse_expected_iff)
 func probeQuirk(in []byte) bool {
 	d := decodeIFD(in)
 	if !d.ok || !d.present(0, len(in)) {
 		return false
 	}
-	bios := in[d.regs[0][0]*blk:]
-	for o := 0; o < 32 && o+4 <= len(bios); o += 8 {
-		if bytes.Equal(bios[o:o+4], []byte("_FVH")) {
-			return true
-		}
+	return probeDirty(in[d.regs[0][0]*blk : (d.regs[0][1]+1)*blk])
+}
+
+// reparseVsProbe states the "clean" half of Props c12_bios_reparse_expected_iff on the implementation: parse,
+// tighten_me, save, re-parse in a new process state; when tighten_me freed at least one block and the input's
+// BIOS region is not probeDirty, the re-parsed BIOS region must report the expected elements (the tightened
+// tree's, touching paddings merged).  The other half (a dirty probe => NOT the expected elements) is a fact about
+// the code as it is, not something C12 demands: it is left to the M checks (R ops, tsteps-reparse), so that a
+// repair of F-C12-probe-start does not make this oracle fail.
+func reparseVsProbe(in []byte) (exp, got string, applicable bool) {
+	defer quiet()()
+	d := decodeIFD(in)
+	if !d.ok || !d.sane || !d.present(0, len(in)) {
+		return "", "", false
 	}
-	return false
+	hu.ResetState()
+	root, err := fuefi.Parse(append([]byte(nil), in...))
+	if err != nil {
+		return "", "", false
+	}
+	tree, ok := root.(*fuefi.FlashImage)
+	if !ok {
+		return "", "", false
+	}
+	if err := visitors.ExecuteCLI(tree, []fuefi.Visitor{tightenVisitor()}); err != nil {
+		return "", "", false
+	}
+	spans, _, found := biosSpans(tree)
+	if !found {
+		return "", "", false
+	}
+	if err := (&visitors.Assemble{}).Run(tree); err != nil {
+		return "", "", false
+	}
+	saved := append([]byte(nil), tree.Buf()...)
+	od := decodeIFD(saved)
+	if !od.ok || len(saved) != len(in) || od.regs[0][0] >= d.regs[0][0] || od.regs[0][1] != d.regs[0][1] {
+		return "", "", false // nothing freed (or the descriptor did not take the new boundary)
+	}
+	x := in[d.regs[0][0]*blk : (d.regs[0][1]+1)*blk]
+	if probeDirty(x) {
+		return "", "", false
+	}
+	exp = "true"
+	hu.ResetState()
+	root2, err := fuefi.Parse(saved)
+	tree2, ok2 := root2.(*fuefi.FlashImage)
+	if err != nil || !ok2 {
+		return exp, "false", true
+	}
+	spans2, _, found2 := biosSpans(tree2)
+	if !found2 {
+		return exp, "false", true
+	}
+	return exp, fmt.Sprint(fmt.Sprint(mergePads(spans)) == fmt.Sprint(mergePads(spans2))), true
 }
 
 // elementOffsets: parse, tighten_me (through the CLI registry), then look at the BIOS region node:
@@ -361,6 +426,9 @@ func runTree(c core.Case) core.Outcome {
 	}
 	if got, ok := elementOffsets(in); ok {
 		O("bios-element-offsets-consistent", "consistent", got)
+	}
+	if exp, got, ok := reparseVsProbe(in); ok {
+		O("reparse-expected-when-probe-clean", exp, got)
 	}
 	if strings.HasSuffix(cls, ":tightened") {
 		extractOracles(in, O)
